@@ -16,9 +16,26 @@ import j1939
 logging.disable(logging.CRITICAL)
 
 
+def _finish(sc, sim):
+    expect = {"settled": False}
+    expect.update(sc.get("expect", {}))
+    return {"cfg": sim.cfg_ret, "ev": sim.trace, "expect": expect, "meta": {"scenario": sc}}, sim
+
+
 def run(sc):
+    try:
+        with vt.watchdog():
+            return _run(sc)
+    except vt.Runaway as e:
+        sim = vt.CUR[0]
+        sim.hang(e)
+        return _finish(sc, sim)
+
+
+def _run(sc):
     sim = vt.Sim(seed=sc.get("seed", 0))
     cfg = {}
+    sim.cfg_ret = cfg
     cas = {}
     for nd in sc["nodes"]:
         n = sim.add_node(nd["name"], latency=nd.get("lat", 1000), dll=sc.get("dll", "j1939-21"))
@@ -88,6 +105,4 @@ def run(sc):
                     ca=o["ca"], dp=o["dp"], pgn=o["pgn"], dest=o["dest"])
     sim.run(sc.get("dur", 3_000_000))
     sim.log({"ev": "end", "node": sc["nodes"][0]["name"]})
-    expect = {"settled": False}
-    expect.update(sc.get("expect", {}))
-    return {"cfg": cfg, "ev": sim.trace, "expect": expect, "meta": {"scenario": sc}}, sim
+    return _finish(sc, sim)
